@@ -15,7 +15,7 @@ from vf.ref import ips
 LEVEL = "exploration"
 RULE = (
     "one case per write history (1-6 blocks; lengths 0,1,2 and k*65535-1..k*65535+2; addresses at 0, 0x1FF/0x200, 64K edges, "
-    "0x454F45..47, 2^24 edges and beyond, negative; copier header on/off; a third of the blocks placed relative to the previous one (adjacent, overlapping from below, one copier header apart), some blocks written again unchanged after other writes; content incl. runs and 'EOF'/'PATCH'); "
+    "0x454F45..47, 2^24 edges and beyond, negative; copier header on/off; a third of the blocks placed relative to the previous one (adjacent, overlapping from below, one copier header apart), some blocks written again unchanged after other writes, a quarter of the histories hand over a buffer that the caller overwrites after the call, 2 % are sessions of 300-2500 small blocks; content incl. runs and 'EOF'/'PATCH'); "
     "distinct by hash of (copier, [(address, length, content digest)]); non-trivial = at least one non-empty block reached the oracle"
 )
 ASSUMPTIONS = [
@@ -75,6 +75,15 @@ def gen_content(rng: random.Random, length: int) -> bytes:
 
 def gen_history(rng: random.Random, kmax: int) -> dict:
     writes = []
+    if rng.random() < 0.02:
+        # a long session of small blocks
+        pos = rng.choice([0, 0x8000, 0x3F0000])
+        for _ in range(rng.choice([300, 1000, 2500])):
+            ln = rng.choice([0, 1, 1, 2, 3, 7, 40])
+            pos += rng.choice([0, 0, 1, 5, 0x100])
+            writes.append([pos, ln, rng.getrandbits(32)])
+            pos += ln
+        return {"copier": rng.random() < 0.5, "writes": writes, "reuse_buffer": rng.random() < 0.5}
     for _ in range(rng.choice([1, 1, 2, 2, 3, 4, 6])):
         ln = gen_len(rng, kmax)
         if len(writes) >= 2 and rng.random() < 0.2:
@@ -89,7 +98,7 @@ def gen_history(rng: random.Random, kmax: int) -> dict:
             writes.append([addr, ln, rng.getrandbits(32)])
             continue
         writes.append([gen_addr(rng, ln), ln, rng.getrandbits(32)])
-    return {"copier": rng.random() < 0.5, "writes": writes}
+    return {"copier": rng.random() < 0.5, "writes": writes, "reuse_buffer": rng.random() < 0.25}
 
 
 def content_for(w: list) -> bytes:
@@ -142,7 +151,14 @@ def run_history(res: Res, hist: dict) -> None:
             addr, length, _ = wr
             data = content_for(wr)
             try:
-                w.write_block(data, addr)
+                if hist.get("reuse_buffer"):
+                    # the caller hands over a buffer it fills again afterwards: what counts is the content at the time of the call
+                    scratch_buf = bytearray(data)
+                    w.write_block(scratch_buf, addr)
+                    scratch_buf[:] = b"\xA5" * len(scratch_buf)
+                    res.count("blocks_from_a_reused_buffer")
+                else:
+                    w.write_block(data, addr)
             except Exception as e:  # noqa: BLE001 - a refusal
                 refused = (i, type(e).__name__)
                 eff = addr + delta
